@@ -51,8 +51,8 @@ prop("C01", ["TaRs.Props.C01", "TaRs.Round.TauSMA", "TaRs.Round.TauSD", "TaRs.Ro
      explanation="L2 theorems (X K, any linearly ordered field): the generated next of SMA/WMA/SD/MAD/Min/Max/BB computes the statistic of exactly the last min(t,n) inputs for every period, stream and prefix (Min/Max: exactly, order only). The tau(t) agreement of the f64 run with that exact value is a theorem under the standard model of floating-point arithmetic for SMA, SD (variance), BollingerBands.average and MAD (Round/*, Tau*: below tau(t) for every t <= 2·10^6 and every n), and for WMA a theorem with a bound that exceeds tau(t) for t >= 16(n+1)^2 (known finding); Bollinger half-widths and the overflow/underflow range are sampled against double-double references.")
 prop("C02", ["TaRs.Props.C02", "TaRs.Round.EMA", "TaRs.Round.TauEMA", "TaRs.Round.EMAPert", "TaRs.Round.MACD", "TaRs.Round.ATR", "TaRs.Round.TauC02"],
      explanation="L0 whole-stream theorems (any Scalar, hence f64 incl. NaN): EMA seeding/recursion, TrueRange branches, ATR/MACD/KC/CE wiring are the documented formulas in the documented operation order. Layer R (Round/EMA, TauEMA): under the standard model of floating-point arithmetic (|fl x - x| <= u|x|, no overflow/underflow) the generated EMA is within 6(n+1)u·M of the exact recursion for EVERY stream length, which is <= 1e-12·M <= tau(t)·M for n <= 1024 at u = 2^-53. Same layer for the scalar path of the composites (Round/MACD, ATR incl. TrueRange and KeltnerChannel, via the EMA perturbation theorem Round/EMAPert): MACD line/signal/histogram within (6Nf+6Ns+3)/(14Ng+..)/(14Ng+12Nf+12Ns+11)·u·M, ATR within (12N+3)·u·M, Keltner bands within (6N+2+(12N+8)|m|)·u·M; TauC02: below 1e-12·M for moderate periods (e.g. ATR n<=749, MACD(12,26,9)), for periods up to 1024 below tau(t)·M only from t >= 52..223 on (stated, not hidden). Bar paths, ChandelierExit and the sub/over-flow range are sampled.")
-prop("C03", ["TaRs.Props.C03", "TaRs.Props.C03a", "TaRs.Lemmas.Exact.FastStochastic", "TaRs.Lemmas.Exact.RateOfChange", "TaRs.Lemmas.Exact.EfficiencyRatio", "TaRs.Lemmas.Exact.CommodityChannelIndex", "TaRs.Lemmas.Exact.MoneyFlowIndex", "TaRs.Round.MFI", "TaRs.Round.TauMFI"],
-     explanation="L0 per-step and whole-stream formulas (RSI, PPO, OBV, SlowStochastic, CCI wiring, FastStochastic wiring) + L2 exact lookback/window theorems (Lemmas/Exact: FastStochastic, ROC, ER, CCI, MFI). Layer R for MoneyFlowIndex (Round/MFI.mfi_reading_rounding): under the standard model of floating-point arithmetic, for every period and every bar stream with non-negative computed raw flows <= M, whenever the window's total flow D is at least 4E (E = 3·t·min(t,n)·u·M, the proved bound on the drift of both running totals) the ratio branch is taken and the returned value is within 100·(2E/D + 12u) of 100·S_P/(S_P+S_N) over exactly the last min(t,n) signed computed flows — the property's tau·c shape with c = M/D. For the other oscillators the tau(t)·c agreement is sampled with double-double references and condition-number gating.")
+prop("C03", ["TaRs.Props.C03", "TaRs.Props.C03a", "TaRs.Lemmas.Exact.FastStochastic", "TaRs.Lemmas.Exact.RateOfChange", "TaRs.Lemmas.Exact.EfficiencyRatio", "TaRs.Lemmas.Exact.CommodityChannelIndex", "TaRs.Lemmas.Exact.MoneyFlowIndex", "TaRs.Round.MFI", "TaRs.Round.TauMFI", "TaRs.Round.CCI", "TaRs.Round.TauCCI"],
+     explanation="L0 per-step and whole-stream formulas (RSI, PPO, OBV, SlowStochastic, CCI wiring, FastStochastic wiring) + L2 exact lookback/window theorems (Lemmas/Exact: FastStochastic, ROC, ER, CCI, MFI). Layer R for MoneyFlowIndex (Round/MFI.mfi_reading_rounding): under the standard model of floating-point arithmetic, for every period and every bar stream with non-negative computed raw flows <= M, whenever the window's total flow D is at least 4E (E = 3·t·min(t,n)·u·M, the proved bound on the drift of both running totals) the ratio branch is taken and the returned value is within 100·(2E/D + 12u) of 100·S_P/(S_P+S_N) over exactly the last min(t,n) signed computed flows — the property's tau·c shape with c = M/D. Layer R for CommodityChannelIndex (Round/CCI.cci_rounding + quot_err): the generated CCI returns 0 or the rounded quotient of a numerator within (3k+…)·u·M of tp − mean and a denominator within (5k+…)·u·M·0.015 of 0.015·MAD over exactly the last min(k,n) computed typical prices, so its error is that drift divided by the exact denominator (the condition number). For the other oscillators the tau(t)·c agreement is sampled with double-double references and condition-number gating.")
 prop("C04", ["TaRs.Props.C04"],
      explanation="L0 theorem per indicator: on every well-formed (hence every reachable) state reset yields exactly the state new builds; parameters unchanged; idempotent. State equality needs no arithmetic, so NaN/inf histories are covered.")
 prop("C05", ["TaRs.Props.C05", "TaRs.Props.C19"],
@@ -71,8 +71,8 @@ prop("C11", ["TaRs.Props.C11"],
      explanation="L0: exact characterisation of every constructor (Err iff a period is 0; never panics for allocation-free ones up to any Nat, for windowed ones while 8n <= isize::MAX), accessors stable for the whole life, Display templates, Default = new(documented defaults).")
 prop("C12", ["TaRs.Props.C12"],
      explanation="L0 theorem per indicator: from new, every sequence of next/nextBar/reset of any length returns normally for ANY scalar semantics; invariant WF by induction over the op list. clone/Debug/serialize returning normally is observed on the implementation only.")
-prop("C13", ["TaRs.Props.C13", "TaRs.Round.SMA", "TaRs.Round.TauSMA", "TaRs.Round.SDMean", "TaRs.Round.SDVar", "TaRs.Round.TauSD", "TaRs.Round.MAD", "TaRs.Round.TauMAD", "TaRs.Round.WMA", "TaRs.Round.WMAWorst", "TaRs.Round.TauWMA", "TaRs.Round.MFI", "TaRs.Round.TauMFI"],
-     explanation="exact half (theorem): accumulators equal the from-scratch window statistic after every stream of any length (SMA, WMA, SD, MAD, BB). Float half: for SMA a THEOREM under the standard model of floating-point arithmetic (Round/SMA, TauSMA: |fl x - x| <= u|x|, no overflow/underflow): after t <= 2·10^6 inputs bounded by M the generated SMA is within 3(t+1)u·M of the exact mean of the current window, and (3(t+1)u)^2 <= 1e-24 + 1e-30 t^3 at u = 2^-53, i.e. within tau(t)·M; likewise StandardDeviation's running mean = BollingerBands.average within 6k·u·M and its variance m2/count within 77(k+1)·u·M² of the exact window variance, never negative (Round/SDMean, SDVar, TauSD: both below tau(t) for every t <= 2·10^6 and every n; the clamp only moves m2 towards the exact value); MeanAbsoluteDeviation within (5k+2min(k,n)+10)·u·M, below tau(t) for every k and n (Round/MAD, TauMAD); WeightedMovingAverage within 4(k²/(min(k,n)+1)+k+2)·u·M (Round/WMA), which is below tau(t) only for k <= 4(n+1)² (or n >= 707) and EXCEEDS it for k >= 16(n+1)² (TauWMA.wma_exceeds), and the quadratic growth is attained inside the standard model (Round/WMAWorst.wma_worst, Tau.wma_worst_above_tau: 6e-6 > 2·tau after 2·10^6 inputs) — the theorem-level counterpart of the known finding WeightedMovingAverage:drift-marginal; MoneyFlowIndex: both running totals (total_positive/negative_money_flow, maintained by pop/push and never recomputed) are within 3·k·min(k,n)·u·M of the sums over exactly the last min(k,n) signed computed flows, M = largest single-bar flow, for every period and every stream of bars with non-negative computed raw flow (Round/MFI.mfi_totals_rounding; mfi_reading_rounding: when the window's total flow D is at least 4E the returned value, last three roundings included, is within 100·(2E/D + 12u) of the exact 100·S_P/D, i.e. accumulated error times the property's condition number c plus a few ulps); below tau(k)·M for every k when n <= 30 (TauMFI.mfi_tau), while for n = 1000 the WORST-CASE bound exceeds tau at k = 10^4 (TauMFI.mfi_bound_exceeds, stated) — that range and CCI (quotient of an SMA deviation by a MAD, each covered by its own Round theorem, the quotient is not) are NOT theorems: drift over 10^5..2·10^6-step runs measured on the implementation against double-double recomputation of the window.")
+prop("C13", ["TaRs.Props.C13", "TaRs.Round.SMA", "TaRs.Round.TauSMA", "TaRs.Round.SDMean", "TaRs.Round.SDVar", "TaRs.Round.TauSD", "TaRs.Round.MAD", "TaRs.Round.TauMAD", "TaRs.Round.WMA", "TaRs.Round.WMAWorst", "TaRs.Round.TauWMA", "TaRs.Round.MFI", "TaRs.Round.TauMFI", "TaRs.Round.CCI", "TaRs.Round.TauCCI"],
+     explanation="exact half (theorem): accumulators equal the from-scratch window statistic after every stream of any length (SMA, WMA, SD, MAD, BB). Float half: for SMA a THEOREM under the standard model of floating-point arithmetic (Round/SMA, TauSMA: |fl x - x| <= u|x|, no overflow/underflow): after t <= 2·10^6 inputs bounded by M the generated SMA is within 3(t+1)u·M of the exact mean of the current window, and (3(t+1)u)^2 <= 1e-24 + 1e-30 t^3 at u = 2^-53, i.e. within tau(t)·M; likewise StandardDeviation's running mean = BollingerBands.average within 6k·u·M and its variance m2/count within 77(k+1)·u·M² of the exact window variance, never negative (Round/SDMean, SDVar, TauSD: both below tau(t) for every t <= 2·10^6 and every n; the clamp only moves m2 towards the exact value); MeanAbsoluteDeviation within (5k+2min(k,n)+10)·u·M, below tau(t) for every k and n (Round/MAD, TauMAD); WeightedMovingAverage within 4(k²/(min(k,n)+1)+k+2)·u·M (Round/WMA), which is below tau(t) only for k <= 4(n+1)² (or n >= 707) and EXCEEDS it for k >= 16(n+1)² (TauWMA.wma_exceeds), and the quadratic growth is attained inside the standard model (Round/WMAWorst.wma_worst, Tau.wma_worst_above_tau: 6e-6 > 2·tau after 2·10^6 inputs) — the theorem-level counterpart of the known finding WeightedMovingAverage:drift-marginal; MoneyFlowIndex: both running totals (total_positive/negative_money_flow, maintained by pop/push and never recomputed) are within 3·k·min(k,n)·u·M of the sums over exactly the last min(k,n) signed computed flows, M = largest single-bar flow, for every period and every stream of bars with non-negative computed raw flow (Round/MFI.mfi_totals_rounding; mfi_reading_rounding: when the window's total flow D is at least 4E the returned value, last three roundings included, is within 100·(2E/D + 12u) of the exact 100·S_P/D, i.e. accumulated error times the property's condition number c plus a few ulps); below tau(k)·M for every k when n <= 30 (TauMFI.mfi_tau), while for n = 1000 the WORST-CASE bound exceeds tau at k = 10^4 (TauMFI.mfi_bound_exceeds, stated) — that range is NOT a theorem; CommodityChannelIndex (Round/CCI.cci_rounding, composition of the SMA and MAD theorems through the L0 wiring lemma): after every stream of k bars with computed typical prices bounded by M the generated CCI has not panicked and returns 0 if d = 0, else fl(fl(tp − a)/fl(d·fl(0.015))) with a within 3(k+1)·u·M of the exact mean and d within (5k+2·min(k,n)+10)·u·M of the exact mean absolute deviation of exactly the last min(k,n) computed typical prices (both below tau(k)·M for every k and n by TauSMA/TauMAD), and quot_err bounds the quotient by 2·EN/D0 + 2·|q|·ED/D0 — component drift over the exact denominator 0.015·MAD, unbounded as the window flattens (that is where the known CCI findings live). Beyond these theorems: drift over 10^5..2·10^6-step runs measured on the implementation against double-double recomputation of the window.")
 prop("C14", ["TaRs.Props.C14", "TaRs.Props.C14b"],
      explanation="L2: homogeneity/shift laws of the window statistics and their stream-level corollaries through the C01 theorems; bit-exactness for 2^k and 1e-9 otherwise are sampled on pairs of runs.")
 prop("C15", ["TaRs.Props.C15", "TaRs.Props.C15Exact"],
